@@ -146,7 +146,8 @@ TryIterLine(r) ==
       ELSE IF fin.res = "driver" /\ r.res.id # fin.id THEN Flag("fault.identity")
       ELSE /\ its' = (r.it :> [live |-> fin.res = "ok",
                                it |-> IF fin.res = "ok" THEN fin.it ELSE NewIt(ct),
-                               lastIn |-> want.inputs]) @@ its
+                               lastIn |-> want.inputs, posterr |-> FALSE,
+                               rng |-> [hist |-> <<>>, pos |-> 0]]) @@ its
            /\ UNCHANGED <<run, ct, skip, diag>>
 
 \* one next() call
@@ -166,6 +167,38 @@ CompareRow(e, c, ret, r) ==
       ELSE IF VarsSet(r.vars) # Vars(ret.it) THEN "vars"
       ELSE "ok"
 
+\* C17 on the log alone: resetRandom restarts the generator, so that, while the bounds repeat, the draws
+\* repeat the values drawn from the start of the run.  st = [hist, pos]: the draws since the start (as far as
+\* they are still reproducible) and the replay position.
+RECURSIVE RngFold(_, _, _)
+RngFold(st, tape, j) ==
+  IF j > Len(tape) THEN [ok |-> TRUE, st |-> st]
+  ELSE LET t == tape[j]
+       IN  IF t.r THEN RngFold([st EXCEPT !.pos = 0], tape, j + 1)
+           ELSE IF st.pos < Len(st.hist)
+                THEN IF st.hist[st.pos + 1].b = t.b
+                     THEN IF st.hist[st.pos + 1].v = t.v THEN RngFold([st EXCEPT !.pos = @ + 1], tape, j + 1)
+                          ELSE [ok |-> FALSE, st |-> st]
+                     ELSE \* the bounds diverge from the first pass: nothing is promised from here on
+                          RngFold([hist |-> Append(SubSeq(st.hist, 1, st.pos), [b |-> t.b, v |-> t.v]), pos |-> st.pos + 1], tape, j + 1)
+                ELSE RngFold([hist |-> Append(st.hist, [b |-> t.b, v |-> t.v]), pos |-> st.pos + 1], tape, j + 1)
+
+\* C14 on the log alone: a virtual signal's output is its expression over the outputs of this very answer,
+\* with no variable visible
+VirtualOutputs(c, outputs, outs) ==
+  \A k \in DOMAIN outputs :
+     LET sg == c.signals[c.expIdx[k].sig]
+     IN  sg.dir = "virt" =>
+           LET v == Eval(sg.vexpr, [env |-> FM_New, outs |-> outs, vars |-> FALSE], [mode |-> "log", tape |-> <<>>], 0)
+           IN  v.ok /\ outputs[k].out = Num(v.v)
+
+\* After an error item the properties do not say how (or whether) the iteration goes on.  The specification
+\* keeps following the implementation as long as it agrees about which row comes next; a disagreement about the
+\* control flow after an error is not a violation (the run is no longer followed), but whatever row IS yielded
+\* must still satisfy the predicates on the log alone and, where the rows agree, report the right outputs and vars().
+PostErrTolerated == {"item.kind", "item.class", "row.line", "row.inputs", "call.kind", "row.expected", "row.outputs.len",
+                     "row.outputs.sig", "rng.tape", "fault.lost", "fault.deviation", "fault.identity", "changed"}
+
 \* C02 on the log alone: the driver calls of one next() are accounted for by its item
 ProtoItem(c, r) ==
   CASE r.item.k = "none" -> r.calls = <<>>
@@ -176,52 +209,60 @@ ProtoItem(c, r) ==
 NextLine(r) ==
   LET e == its[r.it]
       rs == [mode |-> "log", tape |-> r.rng]
+      rf == RngFold(e.rng, r.rng, 1)
+      \* flag, unless the code is one of those tolerated after an error item
+      FlagT(code) == IF e.posterr /\ code \in PostErrTolerated
+                     THEN /\ skip' = TRUE /\ UNCHANGED <<run, ct, its, diag>>
+                     ELSE Flag(code)
+      AfterError(it1, lastIn) ==
+        /\ its' = [its EXCEPT ![r.it].it = it1, ![r.it].lastIn = lastIn, ![r.it].posterr = TRUE, ![r.it].rng = rf.st]
+        /\ UNCHANGED <<run, ct, skip, diag>>
   IN
   \E c \in {NextCall(ct, e.it, rs, 0)} :      \* bound through a singleton set: evaluated exactly once
   IF r.item.k = "panic" THEN Flag("panic")
   ELSE IF ~ProtoItem(ct, r) THEN Flag("proto.item")
+  ELSE IF ~rf.ok THEN Flag("rng.replay")
   ELSE IF c.k = "none" THEN
-       IF c.pos # Len(r.rng) THEN Flag("rng.tape")
-       ELSE IF r.item.k # "none" THEN Flag("item.kind")
+       IF c.pos # Len(r.rng) THEN FlagT("rng.tape")
+       ELSE IF r.item.k # "none" THEN FlagT("item.kind")
        ELSE \* the iterator stays usable: further next() calls must again return None without a call
-            /\ its' = [its EXCEPT ![r.it].it = c.it]
+            /\ its' = [its EXCEPT ![r.it].it = c.it, ![r.it].rng = rf.st]
             /\ UNCHANGED <<run, ct, skip, diag>>
   ELSE IF c.k = "err" THEN
-       IF c.err \in {"tape", "tape_range"} THEN Flag(IF c.err = "tape" THEN "rng.tape" ELSE "rng.range")
+       IF c.err \in {"tape", "tape_range"} THEN (IF c.err = "tape" THEN FlagT("rng.tape") ELSE Flag("rng.range"))
        ELSE IF c.err \in {"range", "unimpl"} /\ r.item.k \in {"row", "err"}
             THEN \* the properties allow an error item or a value here; stop following this run
                  /\ skip' = TRUE /\ UNCHANGED <<run, ct, its, diag>>
-       ELSE IF c.pos # Len(r.rng) THEN Flag("rng.tape")
-       ELSE IF r.item.k # "err" \/ r.calls # <<>> THEN Flag("item.kind")
-       ELSE IF r.item.class # "runtime" THEN Flag("item.class")
-       ELSE /\ its' = [its EXCEPT ![r.it].live = FALSE]
-            /\ UNCHANGED <<run, ct, skip, diag>>
+       ELSE IF c.pos # Len(r.rng) THEN FlagT("rng.tape")
+       ELSE IF r.item.k # "err" \/ r.calls # <<>> THEN FlagT("item.kind")
+       ELSE IF r.item.class # "runtime" THEN FlagT("item.class")
+       ELSE AfterError(c.it, e.lastIn)
   ELSE \* a driver call is due
-       IF r.calls = <<>> THEN Flag("item.kind")
-       ELSE IF r.calls[1].kind # c.call.kind THEN Flag("call.kind")
-       ELSE IF ~SameSV(r.calls[1].inputs, c.call.inputs) THEN Flag("row.inputs")
+       IF r.calls = <<>> THEN FlagT("item.kind")
+       ELSE IF r.calls[1].kind # c.call.kind THEN FlagT("call.kind")
+       ELSE IF ~SameSV(r.calls[1].inputs, c.call.inputs) THEN FlagT("row.inputs")
        ELSE
          \E ret \in {NextReturn(ct, c.it, c.row, r.answer, rs, c.pos)} :
          LET p == ret.item
          IN  IF p.k = "err" /\ p.why \in {"tape", "tape_range"}
-                THEN Flag(IF p.why = "tape" THEN "rng.tape" ELSE "rng.range")
+                THEN (IF p.why = "tape" THEN FlagT("rng.tape") ELSE Flag("rng.range"))
              ELSE IF p.k = "err" /\ p.why \in {"range", "unimpl"} /\ r.item.k \in {"row", "err"}
                 THEN /\ skip' = TRUE /\ UNCHANGED <<run, ct, its, diag>>
-             ELSE IF ret.pos # Len(r.rng) THEN Flag("rng.tape")
+             ELSE IF ret.pos # Len(r.rng) THEN FlagT("rng.tape")
+             ELSE IF r.item.k = "row" /\ ~VirtualOutputs(ct, r.item.outputs, r.answer.outs) THEN Flag("attr.virtual")
              ELSE IF r.item.k # p.k THEN
-                  Flag(IF p.k = "err" /\ p.class = "driver" THEN "fault.lost"
-                       ELSE IF p.k = "err" /\ p.why \in {"count", "order"} THEN "fault.deviation"
-                       ELSE "item.kind")
+                  FlagT(IF p.k = "err" /\ p.class = "driver" THEN "fault.lost"
+                        ELSE IF p.k = "err" /\ p.why \in {"count", "order"} THEN "fault.deviation"
+                        ELSE "item.kind")
              ELSE IF p.k = "err" THEN
-                  IF r.item.class # p.class THEN Flag("item.class")
-                  ELSE IF p.class = "driver" /\ r.item.id # p.id THEN Flag("fault.identity")
-                  ELSE /\ its' = [its EXCEPT ![r.it].live = FALSE]
-                       /\ UNCHANGED <<run, ct, skip, diag>>
+                  IF r.item.class # p.class THEN FlagT("item.class")
+                  ELSE IF p.class = "driver" /\ r.item.id # p.id THEN FlagT("fault.identity")
+                  ELSE AfterError(ret.it, r.calls[1].inputs)
              ELSE \* a row
                   LET code == CompareRow(e, c, ret, r)
-                  IN  IF code # "ok" THEN Flag(code)
+                  IN  IF code # "ok" THEN FlagT(code)
                       ELSE /\ its' = [its EXCEPT ![r.it].it = ret.it,
-                                                 ![r.it].lastIn = r.item.inputs]
+                                                 ![r.it].lastIn = r.item.inputs, ![r.it].rng = rf.st]
                            /\ UNCHANGED <<run, ct, skip, diag>>
 
 Step ==
